@@ -629,6 +629,7 @@ def schema_cases(ctx):
               '42 21 N 71 06 W -24m 30m',
               '42 21 54 N 71 06 18 W -24m 30m',
               '42 21 54.5 N 71 6 18.12 W 10.5m 1m 10000m 10m',
+              '42 21 54.12 N 71 6 18.1 W 0', '42 21 54.1 N 71 6 18.123 W 0',
               '42 21 54.123 N 71 6 18.1 W 10.5 1 10000 10',
               '42 21 54. N 71 W 0',
               '42 21 54.1234 N 71 W 0',
